@@ -159,6 +159,50 @@ fn check_set_graph<T: DSet>(ctx: &mut Ctx, name: &str, t: &T, s: &RS, case: &Val
         Err(m) => fail(ctx, "panic:predicates", case, format!("{}: {}", name, m), w),
     }
     ctx.ops(5);
+    // full_orbit, walk and the 2-orbit representatives
+    let extra = ctx.guard(|| {
+        let mut bad: Option<String> = None;
+        for seed in 1..=n {
+            let e: Vec<usize> = reach(s, &(0..=dim).collect::<Vec<_>>(), seed).into_iter().collect();
+            if t.full_orbit(seed) != e {
+                bad = Some(format!("full_orbit({}) = {:?}, expected {:?}", seed, t.full_orbit(seed), e));
+            }
+            for i in 0..=dim {
+                for j in 0..=dim {
+                    let exp = s.ops[j][s.ops[i][seed - 1]] + 1;
+                    if t.walk(seed, [i, j]) != Some(exp) {
+                        bad = Some(format!("walk({}, [{},{}]) = {:?}, expected {}", seed, i, j, t.walk(seed, [i, j]), exp));
+                    }
+                }
+            }
+            if t.walk(seed, [dim + 1]).is_some() || t.walk(seed, []) != Some(seed) {
+                bad = Some(format!("walk({}, ..) wrong on the empty / out-of-range path", seed));
+            }
+        }
+        for i in 0..=dim {
+            for j in 0..=dim {
+                let reps = t.orbit_reps_2d(i, j);
+                let comps = s.components(&[i, j]);
+                let mut hit = vec![0usize; comps.len()];
+                for &r in &reps {
+                    match comps.iter().position(|c| r >= 1 && c.contains(&(r - 1))) {
+                        Some(k) => hit[k] += 1,
+                        None => bad = Some(format!("orbit_reps_2d({},{}) contains {}, which is not a chamber", i, j, r)),
+                    }
+                }
+                if hit.iter().any(|&h| h != 1) {
+                    bad = Some(format!("orbit_reps_2d({},{}) = {:?} is not one representative per ({},{})-orbit", i, j, reps, i, j));
+                }
+            }
+        }
+        bad
+    });
+    ctx.ops((n * (dim + 1) * (dim + 1) + (dim + 1) * (dim + 1)) as u64);
+    match extra {
+        Ok(None) => {}
+        Ok(Some(b)) => fail(ctx, "orbit-queries", case, format!("{}: {}", name, b), w),
+        Err(m) => fail(ctx, "panic:orbit-queries", case, format!("{}: {}", name, m), w),
+    }
     for mask in 0u32..(1 << (dim + 1)) {
         let idcs: Vec<usize> = (0..=dim).filter(|&i| mask >> i & 1 == 1).collect();
         for seed in 1..=n {
